@@ -20,15 +20,15 @@ TRUST = ["C11 statement oracle: forge(filters on) == ripasso.applyInverseRCFilte
 def generate(rng, tier):
     n = 100 if tier == "quick" else 3000
     for _ci in range(n):
-        yield gen_case(rng)
+        yield gen_case(rng, allow_big=_ci < 400)          # bounded number of very long cases (memory), also in the thorough tier
 
 
-def gen_case(rng):
+def gen_case(rng, allow_big=True):
     regs = Regs()
     SR = rng.choice([100, 1000.0, 1e4, 25, 2.4e9])
     long = rng.random() < 0.15
     N = 2400 if long else rng.randint(6, 48)
-    if rng.random() < 0.03:
+    if allow_big and rng.random() < 0.03:
         long, N = True, rng.choice([70001, 100000])       # beyond 2**16 samples (and not a power of two)
     nch = rng.randint(1, 3) if N < 10000 else rng.randint(1, 2)
     chans = rng.sample(CHAN_POOL, nch)
